@@ -1,6 +1,9 @@
 (* C02 — Every mined sat is in exactly one place and all sat lookups agree.
    Statements only; proofs in Proofs/SatIndex_partition.v and Proofs/SatIndex_proofs.v.
-   [run] is the sat-index model of Index/SatIndex.v; [all_sats st] = the sats of all unspent
+   [run] is the sat-index model of Index/SatIndex.v (one UTXO map; by cache_split_unobservable the
+   cache/table index of Index/SatCache.v has the same UTXO content, lost ranges, LostSats and
+   SAT_TO_SATPOINT for every commit schedule unless a spent input is shadowed, see C01_except);
+   [all_sats st] = the sats of all unspent
    outputs followed by the lost sats; [destroyed st] = ranges dropped by duplicate txids. *)
 From OrdV Require Import Base.Prelude Generated Index.SatIndex Proofs.SatIndex_proofs Proofs.SatIndex_partition Proofs.SatIndex_rare Properties.C01.
 From Coq Require Import Permutation.
